@@ -25,8 +25,10 @@ temporary .. its close, torn writes included) is also faulted with a one-shot Ke
 SystemExit / GeneratorExit / CancelledError; right afterwards keys() must list no residue and the key
 must read old-or-new, then further completed operations (biased to deleting that key) are applied
 and after a reopen the database must equal exactly the last completed operations (the documented
-`except BaseException: new.remove()` contract; interrupts between the later remove and rename are
-NOT injected: the statement only quantifies over crashes there and the code makes no promise).
+`except BaseException: new.remove()` contract).  The commit phase (unlink of the old entry, rename)
+is also hit by KeyboardInterrupt / SystemExit / OSError in a process that unwinds normally; there the
+code promises nothing inside the surviving process, so only the reopened database is judged: the key
+holds its complete old or new value (never absent for a replace), other keys their last values.
 
 Guards: nothing is demanded about *which* of old/new survives; values carry unique ids so that a
 read identifies its write; the buffered-write model is conservative (bytes reach the disk only at
@@ -55,7 +57,8 @@ ASSUMPTIONS = [
 SHARDS = {"quick": 4, "thorough": 16}
 FLOORS = {"crash_runs": 200, "reopen_checks": 200, "nested_crash_runs": 20, "torn_write_points": 50,
           "interrupted_old_kept": 10, "interrupted_new_kept": 10, "replace_ops_faulted": 3, "delete_ops_faulted": 1,
-          "interrupt_runs": 100, "interrupt_cleanup_verified": 100, "deletes_after_interrupt": 20}
+          "interrupt_runs": 100, "interrupt_cleanup_verified": 100, "deletes_after_interrupt": 20,
+          "commit_interrupt_runs": 100, "interrupts_between_unlink_and_rename_of_replace": 30, "commit_interrupt_old_or_new_verified": 100}
 READY = True
 
 VALUE_SIZES = [0, 1, 2, 7, 16, 17, 100, 1000, 4096, 8192]
@@ -341,6 +344,75 @@ class Case:
                               + (" (a deleted key is back)" if back else ""),
                               self.witness(point, {"resurrected_keys": back, "expected": model, "got": got}))
 
+    def commit_interrupts(self, count):
+        """The commit phase of a set (after the temporary is closed: unlink of the old entry, rename)
+        is hit by an exception in a process that UNWINDS NORMALLY (KeyboardInterrupt, SystemExit, or
+        an OSError from the call itself), so its clean-up handlers run.  Nothing is judged inside
+        the surviving process (the code promises nothing there); other keys get completed
+        operations; after a reopen the key must hold its complete old or complete new value —
+        never absent for a replace — and every other key its last completed value."""
+        ctx = self.ctx
+        closes = [k for k, kind, _, _ in count.log if kind == "close"]
+        if not closes:
+            return
+        excs = [KeyboardInterrupt, SystemExit, lambda: OSError(5, "injected I/O error")]
+        names = ["KeyboardInterrupt", "SystemExit", "OSError"]
+        for k, kind, detail, _ in count.log:
+            if k <= closes[0]:
+                continue
+            for n, exc in enumerate(excs):
+                rng = ctx.case_rng("commit", self.case_id, k, n)
+                point = [("interrupt-in-commit", k, kind, names[n])]
+                restore_tree(self.dbdir, self.pristine)
+                fs = self.fs().arm(k, 0, raises=exc)
+                model = {key: v for key, v in self.model.items() if key != self.key}
+                with fs:
+                    db = self.cls(self.dbdir)
+                    try:
+                        apply_op(db, self.last)
+                    except Crash:
+                        raise
+                    except BaseException:
+                        pass
+                    if not fs.fired:
+                        ctx.inconclusive("C51: commit interrupt point not reached on re-execution")
+                        continue
+                    ctx.count("commit_interrupt_runs")
+                    if kind == "rename" and self.old is not None:
+                        ctx.count("interrupts_between_unlink_and_rename_of_replace")
+                    ctx.evaluated()
+                    ctx.distinct((self.case_id, repr(point)))
+                    try:
+                        for _ in range(rng.randrange(0, 3)):  # the process goes on with OTHER keys
+                            ok = b"other-%d" % rng.randrange(3)
+                            if ok in model and rng.random() < 0.4:
+                                del db[ok]
+                                del model[ok]
+                            else:
+                                db[ok] = model[ok] = b"<after-commit-interrupt-%d>" % rng.randrange(1000)
+                    except Exception as e:
+                        ctx.violation("operation-after-interrupt-raised", "a set/delete of another key after the interrupted set raised", self.witness(point, {"exception": repr(e)}))
+                        continue
+                ctx.count("reopen_checks")
+                try:
+                    with self.fs():
+                        db2 = self.cls(self.dbdir)
+                        got = dict(db2.items())
+                        n_keys = len(db2)
+                except Exception as e:
+                    ctx.violation("reopen-or-read-raised", "reopening / listing the database after the interrupted commit raised", self.witness(point, {"exception": repr(e)}))
+                    continue
+                val = got.pop(self.key, None)
+                if val not in (self.old, self.new):
+                    ctx.violation("key-lost-after-interrupted-commit" if val is None else "interrupted-key-wrong-value",
+                                  "after an exception between closing the temporary and the rename (handlers ran) and a reopen, the key has neither its complete old nor its complete new value",
+                                  self.witness(point, {"old": self.old, "new": self.new, "got": val}))
+                elif got != model or n_keys != len(model) + (val is not None):
+                    ctx.violation("other-key-changed", "after an interrupted commit and a reopen another key differs from its last completed operation",
+                                  self.witness(point, {"expected": model, "got": got}))
+                else:
+                    ctx.count("commit_interrupt_old_or_new_verified")
+
     def run(self, depth):
         ctx = self.ctx
         try:
@@ -384,6 +456,7 @@ class Case:
                 self.nested(left, path, depth)
             if self.last[0] == "set":
                 self.interrupts(count)
+                self.commit_interrupts(count)
             ctx.sample({"history": [(o[0], o[1], len(o[2]) if len(o) > 2 else None) for o in self.ops],
                         "faulted_op": (self.last[0], self.last[1], len(self.last[2]) if len(self.last) > 2 else None),
                         "calls": [(k, kind, pend) for k, kind, _, pend in count.log], "crash_points": len(pts)})
